@@ -124,7 +124,8 @@ def opt_case(draw, tier):
                           min_size=nopt, max_size=nopt, unique=True))
     options = {}
     for nm in names:
-        kind = draw(st.sampled_from(["int", "str", "bare-int", "bare-str"]))
+        kind = draw(st.sampled_from(["int", "str", "bare-int", "bare-str",
+                                     "mixed"]))
         if kind == "int":
             options[nm] = draw(st.lists(st.integers(-20, 120), min_size=1,
                                         max_size=5, unique=True))
@@ -137,6 +138,16 @@ def opt_case(draw, tier):
                                            "x_", "_y", "x", "y", "1", "1_2",
                                            "2"])),
                 min_size=1, max_size=5, unique=True))
+        elif kind == "mixed":
+            # numbers and words in one list (0, 1, "auto", 0.5); values whose
+            # printed forms coincide (0 and "0", 1 and True) are left out:
+            # find matches printed forms
+            options[nm] = draw(st.lists(
+                st.one_of(st.integers(-3, 9),
+                          st.sampled_from(["auto", "none", "x", "n1"]),
+                          st.sampled_from([0.5, 2.25])),
+                min_size=2, max_size=5,
+                unique_by=lambda v: str(v)))
         elif kind == "bare-int":
             options[nm] = draw(st.integers(-20, 120))
         else:
